@@ -564,6 +564,7 @@ func run(c *Ctx) {
 	}
 	concurrentDelivery(c, im, cf)
 	concurrentSequence(c, im, cf)
+	expiryPhase(c, im)
 	meshFloodBound(c, im)
 	Must(cf.Write())
 	Must(im.Write(c.Out))
@@ -864,6 +865,95 @@ func concurrentSequence(c *Ctx, im *Impl, cf *CaseFile) {
 			initS, nm.id(origin), CoqList(bs[npre:]), infoS, rowS), label)
 		im.Count(label, true)
 		im.Hist(fmt.Sprintf("concurrent-sequence:threads-%d", nt))
+	}
+}
+
+// expiryPhase: the real expiry of seen update IDs (expireSeenUpdates, a timer goroutine) on a node whose
+// expiry time is E = 600 ms.  An ID must stay in the seen set for at least E after it was recorded (a replay
+// inside that time is not relayed: "at most once"), and it must be forgotten within E + E/2 + slack (the
+// sweep runs every E/2), otherwise the set grows without bound.  Duplicate notices are used because only
+// the seen-ID filter stops their replays.
+func expiryPhase(c *Ctx, im *Impl) {
+	const E = 600 * time.Millisecond
+	rounds := 1
+	if c.Thorough() {
+		rounds = 5
+	}
+	for round := 0; round < rounds; round++ {
+		WaitGoroutinesAtMost(globalBase, 3*time.Second)
+		ctx, cancel := context.WithCancel(context.Background())
+		n := netceptor.NewWithConsts(ctx, "self", 16384, time.Hour, time.Hour, E, 30, time.Hour)
+		n.VerifSetEpoch(selfEpoch)
+		tail, _ := n.VerifAddConn("tail", 1, 8192)
+		_, _ = n.VerifAddConn("k0", 1, 8192)
+		n.VerifHandleRoutingUpdate(netceptor.VerifRoutingUpdate{NodeID: "third", UpdateID: "third-0", UpdateEpoch: 77, UpdateSequence: 1,
+			Connections: map[string]float64{"k0": 1}, ForwardingNode: "k0"}, "k0")
+		time.Sleep(20 * time.Millisecond)
+		Drain(tail)
+		type probe struct {
+			id  string
+			at  time.Time
+		}
+		var probes []probe
+		relayed := func(id string) int {
+			k := 0
+			for _, m := range Drain(tail) {
+				var u wireUpd
+				if len(m) > 0 && m[0] == netceptor.MsgTypeRoute && json.Unmarshal(m[1:], &u) == nil && u.UpdateID == id {
+					k++
+				}
+			}
+			return k
+		}
+		deliver := func(id string) {
+			n.VerifHandleRoutingUpdate(netceptor.VerifRoutingUpdate{NodeID: "third", UpdateID: id, UpdateEpoch: 78, UpdateSequence: 5,
+				Connections: map[string]float64{}, ForwardingNode: "k0", SuspectedDuplicate: 77}, "k0")
+			time.Sleep(15 * time.Millisecond)
+		}
+		// IDs recorded at different phases of the sweep timer
+		for i := 0; i < 6; i++ {
+			id := fmt.Sprintf("exp-%d-%d", round, i)
+			deliver(id)
+			if relayed(id) != 1 {
+				im.Violate("a new notice was not relayed exactly once", "expiry-setup", id)
+			}
+			probes = append(probes, probe{id, time.Now()})
+			time.Sleep(time.Duration(40+c.Rng.Intn(80)) * time.Millisecond)
+		}
+		// replays inside the expiry time: never relayed
+		for _, frac := range []float64{0.5, 0.8} {
+			for _, p := range probes {
+				due := p.at.Add(time.Duration(float64(E) * frac))
+				if d := time.Until(due); d > 0 {
+					time.Sleep(d)
+				}
+				if time.Since(p.at) > E-80*time.Millisecond { // too late to judge (loaded machine)
+					im.Hist("expiry:replay-skipped-late")
+					continue
+				}
+				deliver(p.id)
+				if k := relayed(p.id); k > 0 {
+					im.Violate(fmt.Sprintf("update %s was relayed again %v after it was first handled although seen IDs are kept for %v", p.id, time.Since(p.at).Round(10*time.Millisecond), E),
+						"relayed-twice-before-expiry", p.id)
+				}
+				im.Hist("expiry:replay-inside-window")
+			}
+		}
+		// forgotten in the end: E + E/2 after the LAST refresh... (a replay does not refresh the record)
+		time.Sleep(E + E/2 + 400*time.Millisecond)
+		left := 0
+		for _, id := range n.VerifSeenUpdates() {
+			if strings.HasPrefix(id, "exp-") {
+				left++
+			}
+		}
+		if left > 0 {
+			im.Violate(fmt.Sprintf("%d update IDs are still remembered %v after they were recorded (expiry time %v): the seen set never shrinks", left, 2*E, E),
+				"seen-ids-never-expire", left)
+		}
+		im.Hist("expiry:forgotten-check")
+		im.Count(fmt.Sprintf("expiry round %d", round), true)
+		cancel()
 	}
 }
 
